@@ -30,7 +30,8 @@ COQ_TARGETS = ["C19/Similarity.vo", "C19/SimilarityProofs.vo", "C19/OrbitsComple
 COQ_DIRS = ["C19"]
 PROPERTIES_FILE = "Properties/C19.v"
 ALLOWED_AXIOMS = set()
-RULE = ("cases: (orbit/sample, mode count up to 300), (photon number, max count, modes), (graph of 1-12 nodes with "
+RULE = ("cases: (orbit/sample, mode count up to 300), (photon number up to 30, max count 1/2/3/unrestricted, modes up to 300; a "
+        "deterministic list straddling 2^53, 2^63, 2^64 on every run plus random shapes up to 2^100), (graph of 1-12 nodes with "
         "arbitrary integer labels and insertion order, seed clique / subgraph, selection mode uniform|degree|integer "
         "weights with ties and negatives, oracle draws), bookkeeping histories of _update_subgraphs_list, search runs; "
         "non-trivial = mode count > 22 (beyond exact doubles), or a graph case with >= 4 nodes in degree/weight mode "
@@ -267,8 +268,17 @@ def pred_event_card(d):
         same = int(v) == e and v == e
     except (OverflowError, ValueError):
         same = False
-    if same:
+    # internal consistency, in exact Python ints: the event is the disjoint union of its admissible orbits
+    try:
+        parts_sum = sum(int(SI.orbit_cardinality(list(o), m)) for o in SI.orbits(k) if max(o) <= c)
+    except Exception as ex:  # noqa: BLE001
+        return [("orbit_cardinality:raises", "orbit_cardinality raised %r while summing the orbits of event (%d,%d,%d)" % (ex, k, c, m))]
+    if same and parts_sum == e:
         return []
+    if not same and parts_sum == e:
+        return [("event_cardinality:not-sum-of-orbit-cardinalities",
+                 "event_cardinality(%d,%d,%d) = %r, but the exact sum of orbit_cardinality over its orbits is %d = the true count (%d bits): "
+                 "the sum is not computed in exact integers" % (k, c, m, v, parts_sum, e.bit_length()))]
     if any(max(orb) <= c and len(orb) > m for orb in ref_partitions(k) if orb):
         exact_terms = sum(exact_orbit_card(orb, m) for orb in ref_partitions(k) if orb and max(orb) <= c and len(orb) <= m)
         if exact_terms == e:
@@ -282,6 +292,45 @@ def pred_event_card(d):
     if m > 170 and isinstance(v, float):
         return [("event_cardinality:float-sum:modes>170", "event_cardinality(%d,%d,%d) = %r, exact count %d: the per-orbit cardinalities come back as floats for modes > 170 and their sum is rounded" % (k, c, m, v, e))]
     return [("event_cardinality:wrong-sum", "event_cardinality(%d,%d,%d) = %r, exact count %d" % (k, c, m, v, e))]
+
+
+class _UnitState:
+    """stands in for the GBS state: every sample has probability 1, so the Monte Carlo estimate equals its prefactor"""
+
+    def fock_prob(self, sample, cutoff=None):
+        return 1.0
+
+
+def pred_mc(d):
+    """prob_event_mc / prob_orbit_mc scale the sampled mean by event_/orbit_cardinality: with a unit-probability
+    state the estimate must equal the exact cardinality up to double rounding"""
+    k, c, m, S = d["photons"], d["maxc"], d["modes"], d.get("samples", 1)
+    orbit = d.get("orbit")
+    G = nx.empty_graph(m)
+    orig = SI._get_state
+    SI._get_state = lambda *a, **kw: _UnitState()
+    try:
+        if orbit is not None:
+            exact = exact_orbit_card(orbit, m) if len(orbit) <= m else 0
+            name = "prob_orbit_mc"
+            r = call(SI.prob_orbit_mc, G, list(orbit), 5, S, 0.0, draws=d["draws"], perm=d["perm"])
+        else:
+            exact = exact_event_card(k, c, m) if k > 0 else 1
+            name = "prob_event_mc"
+            r = call(SI.prob_event_mc, G, k, c, 5, S, 0.0, draws=d["draws"], perm=d["perm"])
+    finally:
+        SI._get_state = orig
+    if exact == 0 or exact.bit_length() > 900:
+        return []
+    if r[0] != "Ok":
+        return [(name + ":raises", "%s with a unit-probability state raised %s (cardinality %d)" % (name, r[1:], exact))]
+    try:
+        ok = abs(Fraction(float(r[1])) - exact) <= Fraction(exact, 10 ** 12)
+    except (OverflowError, ValueError, TypeError):
+        ok = False
+    if not ok:
+        return [(name + ":prefactor", "%s with a unit-probability state returned %r; its prefactor, the cardinality, is exactly %d (%d bits)" % (name, r[1], exact, exact.bit_length()))]
+    return []
 
 
 def pred_orbits(d):
@@ -815,7 +864,7 @@ PREDS = {
     "card": pred_card, "event_card": pred_event_card, "orbits": pred_orbits, "convert": pred_convert,
     "o2s": pred_o2s, "e2s": pred_e2s, "sample": pred_sample, "is_clique": pred_is_clique, "c01": pred_c01,
     "grow": pred_grow, "swap": pred_swap, "shrink": pred_shrink, "resize": pred_resize, "search": pred_search,
-    "update": pred_update, "csearch": pred_csearch,
+    "update": pred_update, "csearch": pred_csearch, "mc": pred_mc,
 }
 
 
@@ -1009,6 +1058,72 @@ def gen_modes(rng, lo):
     return max(lo, rng.randint(165, 300))
 
 
+def _smallest_m(count, lo, thr, hi=300):
+    """smallest mode count m in [lo, hi] with count(m) >= thr (count is monotone in m); None if unreachable"""
+    if count(hi) < thr:
+        return None
+    while lo < hi:
+        mid = (lo + hi) // 2
+        if count(mid) >= thr:
+            hi = mid
+        else:
+            lo = mid + 1
+    return lo
+
+
+THRESHOLDS = (2 ** 53, 2 ** 63, 2 ** 64)
+EVENT_SHAPES = [(12, 1), (16, 1), (20, 1), (14, 2), (18, 2), (24, 2), (15, 3), (22, 3), (28, 4), (12, 12), (20, 20), (30, 30)]
+ORBIT_SHAPES = [[1] * 12, [1] * 20, [2] * 8, [3, 2, 2, 1, 1, 1], [5, 4, 3, 2, 1], [2, 2, 2, 2, 1, 1, 1, 1, 1, 1], [7, 7], [4] * 5 + [1] * 9]
+
+
+def _straddling_events():
+    out = [(16, 2, 100), (18, 2, 80), (22, 3, 60), (24, 24, 50), (30, 30, 40), (14, 1, 200), (20, 2, 150)]
+    for k, c in EVENT_SHAPES:
+        for thr in THRESHOLDS:
+            m = _smallest_m(lambda mm: exact_event_card(k, c, mm), max(1, -(-k // c)), thr)
+            if m is not None:
+                out += [(k, c, m - 1), (k, c, m)]     # just below / at-or-above 2^53, 2^63, 2^64
+    return list(dict.fromkeys(out))
+
+
+def _straddling_orbits():
+    out = []
+    for o in ORBIT_SHAPES:
+        for thr in THRESHOLDS:
+            m = _smallest_m(lambda mm: exact_orbit_card(o, mm), len(o), thr)
+            if m is not None:
+                out += [(o, m - 1), (o, m)]
+    return out
+
+
+LARGE_EVENT_CASES = _straddling_events()
+LARGE_ORBIT_CASES = _straddling_orbits()
+# the part of the deterministic list that is also evaluated by the Coq model in the quick tier (cost ~1-4 s each)
+LARGE_EVENT_COQ_QUICK = [(16, 2, 100), (22, 3, 60), (24, 24, 50), (14, 1, 200), (20, 2, 150), (16, 1, 112), (15, 3, 68), (12, 12, 208)]
+
+
+def gen_large_event(rng, kmax=30):
+    """(photons, max count, modes) whose event has between 2^50 and 2^90 samples"""
+    for _ in range(20):
+        k = rng.randint(8, kmax)
+        c = rng.choice([1, 2, 3, k, rng.randint(1, k)])
+        bits = rng.choice([50, 52, 53, 54, 60, 62, 63, 64, 65, 66, 70, 80, 90])
+        m = _smallest_m(lambda mm: exact_event_card(k, c, mm), max(1, -(-k // c)), 2 ** bits)
+        if m is not None:
+            return k, c, min(300, m + rng.choice([0, 0, 1, 2, 5]))
+    return 16, 2, 100
+
+
+def gen_large_orbit(rng, kmax=30):
+    for _ in range(20):
+        o = gen_orbit(rng, kmax)
+        bits = rng.choice([50, 52, 53, 54, 60, 62, 63, 64, 65, 66, 70, 80, 100])
+        m = _smallest_m(lambda mm: exact_orbit_card(o, mm), len(o), 2 ** bits)
+        if m is not None:
+            return o, min(300, m + rng.choice([0, 0, 1, 2, 5]))
+    return [1] * 12, 119
+
+
 def gen_samples(rng, n, cnt):
     return [[rng.choice([0, 0, 0, 1, 1, 2, 3]) for _ in range(n)] for _ in range(cnt)]
 
@@ -1117,6 +1232,13 @@ def correspondence(ctx):
         k = rng.randint(0, 9)
         c = rng.randint(1, 4)
         m = gen_modes(rng, k)
+        B.add("event_card", "event_cardinality %d %d %d" % (k, c, m), call(SI.event_cardinality, k, c, m), {"photons": k, "maxc": c, "modes": m})
+    # results around and beyond 2^53 / 2^63 / 2^64: deterministic list + random shapes
+    big_orbits = list(LARGE_ORBIT_CASES) + [gen_large_orbit(rng) for _ in range(6 * scale)]
+    for o, m in big_orbits:
+        B.add("card", "orbit_cardinality %s %d" % (L(o), m), call(SI.orbit_cardinality, list(o), m), {"orbit": list(o), "modes": m})
+    big_events = list(LARGE_EVENT_COQ_QUICK if ctx.quick else LARGE_EVENT_CASES) + [gen_large_event(rng, 22) for _ in range(ctx.budget(3, 40))]
+    for k, c, m in big_events:
         B.add("event_card", "event_cardinality %d %d %d" % (k, c, m), call(SI.event_cardinality, k, c, m), {"photons": k, "maxc": c, "modes": m})
     for _ in range(25 * scale):
         o = gen_orbit(rng, 8)
@@ -1382,6 +1504,39 @@ def search(ctx):
         c = rng.randint(1, 4)
         m = gen_modes(rng, max(k, 1)) if rng.random() < 0.75 else rng.randint(1, max(1, k))
         go("event_card", {"photons": k, "maxc": c, "modes": m}, m > 22)
+    # fixed-width arithmetic breaks around 2^53 (float64), 2^63 (int64), 2^64 (uint64): deterministic list on every
+    # run + random shapes; exact Python reference, exact sum over orbits, and the Monte Carlo prefactor
+    for o, m in LARGE_ORBIT_CASES:
+        go("card", {"orbit": list(o), "modes": m}, True)
+    for k, c, m in LARGE_EVENT_CASES:
+        go("event_card", {"photons": k, "maxc": c, "modes": m}, True)
+    for i, (k, c, m) in enumerate(LARGE_EVENT_CASES):
+        if i % ctx.budget(4, 1) == 0 and k <= 24:
+            perm = list(range(m))
+            rng.shuffle(perm)
+            go("mc", {"photons": k, "maxc": c, "modes": m, "samples": rng.choice([1, 3]), "draws": gen_draws(rng, 4), "perm": perm}, True)
+    for i, (o, m) in enumerate(LARGE_ORBIT_CASES):
+        if i % ctx.budget(3, 1) == 0:
+            perm = list(range(m))
+            rng.shuffle(perm)
+            go("mc", {"photons": sum(o), "maxc": max(o), "modes": m, "orbit": list(o), "samples": rng.choice([1, 3]), "draws": gen_draws(rng, 4), "perm": perm}, True)
+    for _ in range(12 * scale):
+        o, m = gen_large_orbit(rng)
+        go("card", {"orbit": o, "modes": m}, True)
+    for _ in range(6 * scale):
+        k, c, m = gen_large_event(rng, ctx.budget(24, 30))
+        go("event_card", {"photons": k, "maxc": c, "modes": m}, True)
+    for _ in range(2 * scale):
+        k, c, m = gen_large_event(rng, 20)
+        perm = list(range(m))
+        rng.shuffle(perm)
+        go("mc", {"photons": k, "maxc": c, "modes": m, "samples": rng.choice([1, 2, 5]), "draws": gen_draws(rng, 6), "perm": perm}, True)
+    for _ in range(3 * scale):
+        k, c, m = rng.randint(1, 8), rng.randint(1, 4), rng.randint(1, 12)
+        if c * m >= k:
+            perm = list(range(m))
+            rng.shuffle(perm)
+            go("mc", {"photons": k, "maxc": c, "modes": m, "samples": rng.choice([1, 2, 5]), "draws": gen_draws(rng, 6), "perm": perm})
     for n in range(0, ctx.budget(23, 35)):
         go("orbits", {"photons": n})
     for _ in range(6 * scale):
